@@ -399,3 +399,49 @@ fn decrypt_any_salt_length() {
     core::mem::forget(r);
     core::mem::forget(pk);
 }
+
+//@ C11,C14 quick timeout=1500 | DES (cut S9): one encrypt of a scoped PDU of 33 octets (length = 1 mod 8, engine id of 3 octets): plaintext handed to CBC == the 33 PDU octets followed by 7 zero octets (40), key/IV/salt as specified
+#[kani::proof]
+#[kani::unwind(18)]
+#[kani::stub(alloc::fmt::format, stub_format)]
+#[kani::stub(cipher::KeyInit::new_from_slice, RecKey::rec_new_from_slice)]
+#[kani::stub(cipher::InnerIvInit::inner_iv_slice_init, RecIv::rec_inner_iv_slice_init)]
+#[kani::stub(cipher::BlockEncryptMut::encrypt_padded_mut, RecEnc::rec_encrypt_padded_mut)]
+fn des_feed_len33() {
+    let kul: [u8; 16] = kani::any();
+    let seed: u32 = kani::any();
+    unsafe {
+        rand::QUEUE[0] = seed as u64;
+        rand::DRAWN = 0;
+    }
+    let mut pk = PrivKey::new(1).expect("des");
+    pk.as_localized(&kul).expect("key");
+    let e: [u8; 3] = kani::any();
+    let o: [u8; 3] = kani::any();
+    let rid3 = [0x12u8, 0x34, 0x56];
+    let scoped = ScopedPdu { engine_id: &e[..], pdu: SnmpPdu::GetRequest(SnmpGet { request_id: 0x123456, vars: vec![oid(&o[..])] }) };
+    let plain: [u8; 33] = [
+        0x30, 31, 0x04, 3, e[0], e[1], e[2], 0x04, 0, 0xa0, 22, 0x02, 3, rid3[0], rid3[1], rid3[2], 0x02, 1, 0, 0x02, 1, 0, 0x30, 9, 0x30, 7, 0x06, 3, o[0], o[1], o[2],
+        0x05, 0,
+    ];
+    let (ct, salt) = pk.encrypt(&scoped, kani::any(), kani::any()).expect("encrypt");
+    assert!(salt.len() == 8, "des_salt_is_8_octets");
+    unsafe {
+        assert!(REC_MSG_LEN == 40 && REC_BUF_LEN == 40, "plaintext_is_pdu_padded_to_block_multiple");
+    }
+    assert!(ct.len() == 40, "ciphertext_length");
+    let mut b = 0;
+    while b < 5 {
+        let mut j = 0;
+        while j < 8 {
+            let i = b * 8 + j;
+            let want = if i < 33 { plain[i] } else { 0 };
+            assert!(ct[i] == want, "plaintext_is_scoped_pdu_then_zero_padding");
+            j += 1;
+        }
+        b += 1;
+    }
+    kani::cover!(true, "encrypted");
+    core::mem::forget(scoped);
+    core::mem::forget(pk);
+}
